@@ -29,6 +29,8 @@ ASSUMPTIONS = [
 ]
 
 _STATES = None
+# the generator member `ga` (driven by list()) takes part with a lower weight
+GFNS = ["fa", "fb", "fc", "fa", "fb", "fc", "ga"]
 
 
 def _states():
@@ -93,14 +95,70 @@ def nontrivial_features(sel, roots, groups, trace):
     return feats
 
 
+def _rename(sel, prefix):
+    from vlib import selgen as G
+
+    return G.CallN(sel.fn, sel.fntag, tuple(c._replace(alias=prefix + c.alias[1:]) for c in sel.caps),
+                   tuple(_rename(ch, prefix) for ch in sel.children))
+
+
+def check_pair(sel1, sel2, roots, rec=None):
+    """Two focused selectors in ONE probe: the stream is the time-ordered merge of both."""
+    sel2 = _rename(sel2, "d")
+    t1, t2 = T.spelling(sel1), T.spelling(sel2)
+    trace = M.simulate(roots)
+    timed = M.immediate_events(sel1, trace, with_time=True) + M.immediate_events(sel2, trace, with_time=True)
+    timed.sort(key=lambda tg: tg[0])
+    groups = []
+    last = None
+    for t, g in timed:
+        if t == last:
+            groups[-1] = groups[-1] + g
+        else:
+            groups.append(list(g))
+        last = t
+    from ptera import probing
+    import copy as _copy
+
+    F.DISPATCH.update(F.RAW)
+    try:
+        with probing(t1, t2, env=T.env()).values() as vals:
+            F.drive(_copy.deepcopy(roots))
+        events = list(vals)
+    except BaseException as e:
+        for s in _states():
+            s.force_clean()
+        HY.force_global_clean()
+        raise PropertyViolation("run", f"probing({t1!r}, {t2!r}) raised {HY.describe_exc(e)}",
+                                extra={"bucket": "run:" + HY.exc_bucket(e)})
+    try:
+        compare_groups(groups, events, f"probing({t1!r}, {t2!r})")
+        probs = [p for s in _states() for p in s.is_clean()] + HY.global_state_problems()
+        if probs:
+            raise PropertyViolation("cleanup", f"after the probe block: {probs}")
+    finally:
+        for s in _states():
+            if s.is_clean():
+                s.force_clean()
+        if HY.global_state_problems():
+            HY.force_global_clean()
+    if rec is not None:
+        e1 = sum(len(g) for _, g in M.immediate_events(sel1, trace, with_time=True))
+        nt = e1 > 0 and len(events) > e1
+        rec.case(h64(repr((roots, sel1, sel2))), nt, {"delivery:pair"},
+                 sample=lambda: {"plan": T.plan_brief(roots), "selectors": [t1, t2], "events": events[:6]})
+
+
 def check_case(sel, roots, delivery, choices, rec=None):
+    if delivery == "pair":
+        return check_pair(sel[0], sel[1], roots, rec)
     text = T.spelling(sel, choices)
     trace = M.simulate(roots)
     groups = M.immediate_events(sel, trace)
     expected_out = []
     for r in roots:
         e = M.escaping(r)
-        expected_out.append(("boom", e) if e is not None else ("ret", r["ret"]))
+        expected_out.append(("boom", e) if e is not None else ("ret", M.call_result(r)))
     try:
         if delivery == "probing":
             events, out = T.run_probing(text, roots)
@@ -171,11 +229,19 @@ def shard(cfg):
 
     rec = Recorder()
     strat = st.tuples(
-        T.selector_strategy(max_depth=4, focus="yes"),
-        T.plan_strategy(max_nodes=cfg["nodes"], max_depth=cfg["depth"]),
+        T.selector_strategy(max_depth=4, focus="yes", fns=GFNS),
+        T.plan_strategy(max_nodes=cfg["nodes"], max_depth=cfg["depth"], fns=GFNS),
         st.sampled_from(["probing", "overlay"]),
         st.one_of(st.none(), st.lists(st.integers(0, 3), min_size=4, max_size=12)),
     )
+
+    pair = st.tuples(
+        st.tuples(T.selector_strategy(max_depth=3, focus="yes", fns=GFNS), T.selector_strategy(max_depth=2, focus="yes", fns=GFNS)),
+        T.plan_strategy(max_nodes=cfg["nodes"], max_depth=cfg["depth"], fns=GFNS),
+        st.just("pair"),
+        st.none(),
+    )
+    strat = st.one_of(strat, strat, strat, pair)
 
     def body(case):
         sel, roots, delivery, choices = case
